@@ -76,13 +76,13 @@ def to_trace(sc, out):
     rejected = set()
     for e in log:
         if e["kind"] == "accept-end" and e.get("concurrent") and e["result"] == "RuntimeError" and not e.get("has_cause"):
-            rejected.add(e["rid"])
+            rejected.add((e["rid"], e["thread"]))
     events, pids = [], []
     fl_of = {p["pid"]: p["fl"] for p in sc.get("payloads", [])}
     for e in log:
         k, pid = e["kind"], e.get("pid")
         if k == "accept-begin":
-            if e.get("concurrent") and e["rid"] in rejected:
+            if e.get("concurrent") and (e["rid"], e["thread"]) in rejected:
                 events.append(["acceptReject", e["rid"]])
             else:
                 events.append(["acceptBegin", e["rid"]])
@@ -106,7 +106,7 @@ def to_trace(sc, out):
             events.append(["sigint"])
         elif k == "shutdown-call":
             events.append(["shutdownCall"])
-        elif k == "accept-end" and not (e.get("concurrent") and e["rid"] in rejected):
+        elif k == "accept-end" and not (e.get("concurrent") and (e["rid"], e["thread"]) in rejected):
             r = result_of(e)
             events.append(["endRun"] + r)
     return sorted(set(pids)), events
